@@ -165,7 +165,12 @@ def createDispatch : List (String × String × String) := [("can", "CanPayload",
 def createShape : Nat × Bool × Bool := (7, true, true)
 
 
-/-- symbols in writable sections of the library objects, minus the allow-list -/
+/-- every defined OBJECT / TLS symbol (local, global, weak, unique: inline variables, statics of templates and inline functions too) in a
+    WRITABLE section of a library object other than relocation-read-only data, read from the ELF tables of the freshly built
+    objects (292 data symbols looked at), minus the ignored ones listed below -/
 def mutableStatics : List String := []
+
+/-- what the scan found and ignored, and why (nothing is ignored silently) -/
+def mutableStaticsIgnored : List (String × String) := [("DW.ref.__gxx_personality_v0", "pointer to the exception personality routine"), ("std::__ioinit", "the iostream initialiser object every translation unit that includes <iostream> gets")]
 
 end AsamCmp.Generated
